@@ -1,6 +1,20 @@
 import GapicModel.Driver.Base
+import GapicModel.Driver.C02
+import GapicModel.Driver.C03
+import GapicModel.Driver.C04
+import GapicModel.Driver.C05
+import GapicModel.Driver.C06
 import GapicModel.Driver.C07
+import GapicModel.Driver.C08
+import GapicModel.Driver.C09
+import GapicModel.Driver.C10
+import GapicModel.Driver.C14
+import GapicModel.Driver.C15
+import GapicModel.Driver.C16
+import GapicModel.Driver.C17
+import GapicModel.Driver.C18
 import GapicModel.Driver.C19
+import GapicModel.Driver.C20
 /-
 JSON-lines driver over the executable model (DESIGN §3.3).
   .lake/build/bin/driver < ops.jsonl > out.jsonl      (or: lake env lean --run GapicModel/Driver.lean)
@@ -13,7 +27,7 @@ open Lean GapicModel
 namespace GapicModel.Driver
 
 def allOps : List (String × (Json → Except String Json)) :=
-  [("regex", opRegex)] ++ opsC07 ++ opsC19
+  [("regex", opRegex)] ++ opsC02 ++ opsC03 ++ opsC04 ++ opsC05 ++ opsC06 ++ opsC07 ++ opsC08 ++ opsC09 ++ opsC10 ++ opsC14 ++ opsC15 ++ opsC16 ++ opsC17 ++ opsC18 ++ opsC19 ++ opsC20
 
 def dispatch (j : Json) : Except String Json := do
   let op ← (← j.getObjVal? "op").getStr?
